@@ -777,8 +777,12 @@ class ExcelCompiler:
                 # the reference depends on the range it refers to
                 add_node_to_graph(alias)
 
-            self.range_todos.append(str(excel_data.address))
-            new_nodes = build_range(excel_data)
+            if str(excel_data.address) in self.cell_map:
+                # the range referred to is already built, keep its node
+                new_nodes = []
+            else:
+                self.range_todos.append(str(excel_data.address))
+                new_nodes = build_range(excel_data)
         else:
             new_nodes = build_cell(excel_data)
 
